@@ -139,6 +139,44 @@ pub fn c14(tier: &str, seed: u64) -> Vec<Case> {
             }
         }
     }
+    // announcements of the watched service whose instance label is hostile, ingested with and without
+    // a discovery channel, followed by what `get_known_services` does on the same store
+    let hostile_labels: Vec<Vec<u8>> = vec![vec![0xFF, 0xFE], b"caf\xe9".to_vec(), vec![0xC3], vec![b'a'; 63], b"x.y\\z".to_vec(), vec![0], b"ok".to_vec(), vec![0xF0, 0x9F, 0x98], "é".as_bytes().to_vec()];
+    for (k, hl) in hostile_labels.iter().enumerate() {
+        for with_channel in [false, true] {
+            let sname = mk_name(&service);
+            let fname = mk_name(&full);
+            let mut inst_labels = vec![hl.clone()];
+            inst_labels.extend(service.clone());
+            let iname = mk_name(&inst_labels);
+            let mut p = Packet::new_reply(0);
+            p.answers.push(ResourceRecord::new(iname.clone(), CLASS::IN, 120, RData::A(A { address: k as u32 })));
+            p.answers.push(ResourceRecord::new(iname.clone(), CLASS::IN, 120, RData::SRV(SRV { priority: 0, weight: 0, port: 80, target: iname.clone() })));
+            p.additional_records.push(ResourceRecord::new(iname.clone(), CLASS::IN, 120, RData::TXT(TXT::new().with_char_string(crate::gen::mk_cs(&[0xFF, b'=', 0xFE])))));
+            let d = p.build_bytes_vec_compressed().unwrap();
+            let own_ptr = ResourceRecord::new(sname.clone(), CLASS::IN, 0, RData::PTR(PTR(fname.clone())));
+            let line = format!("pipe A {} PD {} {} {} 5", text::rr(&own_ptr), text::name(&sname), text::name(&fname), text::hex(&d));
+            watch(&line);
+            let res = std::panic::catch_unwind(std::panic::AssertUnwindSafe(|| -> std::result::Result<String, String> {
+                let mut store: ResourceRecordManager<'static> = ResourceRecordManager::new();
+                store.add_authoritative_resource(own_ptr.clone());
+                let packet = Packet::parse(&d).map_err(|_| "parse".to_string())?;
+                let (tx, rx) = std::sync::mpsc::channel();
+                let mut ch = if with_channel { Some(tx) } else { None };
+                sync_add_response_to_resources(packet, &sname, &fname, &mut store, &mut ch);
+                let _ = rx.try_recv().map(|i| (i.escaped_instance_name(), i.unescaped_instance_name(), format!("{:?}", i)));
+                let cached: Vec<String> = store.get_domain_resources(&sname, DomainResourceFilter::cached()).flatten().map(text::rr).collect();
+                // what the application does next
+                let known: Vec<InstanceInformation> = store.get_domain_resources(&sname, DomainResourceFilter::cached()).filter_map(|rs| instance_from_records(&sname, rs)).collect();
+                let _ = format!("{:?}", known);
+                Ok(sorted(cached))
+            }));
+            let out = match &res { Ok(Ok(c)) => format!("ok none cached {}", c), Ok(Err(e)) => format!("err {}", e), Err(_) => "panic".to_string() };
+            let mut c = Case::new(line, out.clone()).tag("hostile-announcement").tag(if with_channel { "with-channel" } else { "without-channel" });
+            if out == "panic" { c = c.fail("discovery-panic", format!("ingesting / listing an announcement whose instance label is {:?} panicked", hl)); }
+            v.push(c);
+        }
+    }
     v.extend(socket_cases(tier, seed));
     v
 }
@@ -244,6 +282,17 @@ pub fn c15(tier: &str, seed: u64) -> Vec<Case> {
             if r.chance(1, 3) { p.answers.push(ResourceRecord::new(mk_name(&[b"other".to_vec(), b"_http".to_vec(), b"_tcp".to_vec(), b"local".to_vec()]), CLASS::IN, 120, RData::A(A { address: 77 }))); }
             if r.chance(1, 3) { p.additional_records.push(ResourceRecord::new(own.clone(), CLASS::IN, 120, RData::A(A { address: 66 }))); }
             if r.chance(1, 3) { p.answers.push(ResourceRecord::new(service.clone(), CLASS::IN, 120, RData::PTR(PTR(full.clone())))); }
+            // some peers first say goodbye (the same records with TTL 0) and then announce: what was
+            // received last counts
+            if r.chance(1, 3) {
+                let mut bye = p.clone();
+                for rec in bye.answers.iter_mut() { rec.ttl = 0; }
+                let wire = bye.build_bytes_vec_compressed().unwrap();
+                let parsed = Packet::parse(&wire).unwrap();
+                line.push_str(&format!(" I 0 {} {} {}", text::name(&service), text::name(&own), text::packet(&parsed)));
+                let mut ch = None;
+                sync_add_response_to_resources(parsed, &service, &own, &mut store, &mut ch);
+            }
             let wire = p.build_bytes_vec_compressed().unwrap();
             let parsed = Packet::parse(&wire).unwrap();
             line.push_str(&format!(" I 0 {} {} {}", text::name(&service), text::name(&own), text::packet(&parsed)));
